@@ -1010,7 +1010,7 @@ def extract(ctx):
     t = rw.sub(t, r'range\.begin\(\)', 'range_begin', 1, 1, name='range accessor')
     t = rw.sub(t, r'context\.is_group_execution_cancelled\(\)', 'STUB_is_cancelled()', 1, 1, name='callee stub')
     t = rw.sub(t, r'context\.cancel_group_execution\(\);', 'STUB_cancel();', 1, 1, name='callee stub')
-    t = rw.sub(t, r'comp\(\*\(k\), \*\(k - 1\)\)', 'COMP_AT(k, k - 1)', 1, 1, name='comparator stub on iterator positions')
+    t = rw.sub(t, r'comp\(\*\(?(k(?: [-+] \d+)?)\)?, \*\(?(k(?: [-+] \d+)?)\)?\)', r'COMP_AT(\1, \2)', 1, 1, name='comparator stub on iterator positions')
     t = tag_loops(t, 'pretest', rw, expect=1)
     out.append(t)
     s = slice_block(PS, r'void parallel_quick_sort\( RandomAccessIterator begin, RandomAccessIterator end, const Compare& comp \)')
@@ -1018,7 +1018,7 @@ def extract(ctx):
     t = rw.sub(s.text, r'void parallel_quick_sort\( RandomAccessIterator begin, RandomAccessIterator end, const Compare& comp \)', 'void parallel_quick_sort(RandomAccessIterator begin, RandomAccessIterator end)', 1, 1, name='sig (Compare bound)')
     t = rw.sub(t, r'task_group_context my_context\(PARALLEL_SORT\);', 'STUB_context_init();', 1, 1, name='context ctor -> stub')
     t = rw.sub(t, r'constexpr int serial_cutoff = 9;', 'const int serial_cutoff = 9;', 1, 1, name='constexpr')
-    t = rw.sub(t, r'comp\(\*\(k \+ 1\), \*k\)', 'COMP_AT(k + 1, k)', 1, 1, name='comparator stub on iterator positions')
+    t = rw.sub(t, r'comp\(\*\(?(k(?: [-+] \d+)?)\)?, \*\(?(k(?: [-+] \d+)?)\)?\)', r'COMP_AT(\1, \2)', 1, 1, name='comparator stub on iterator positions')
     t = rw.sub(t, r'do_parallel_quick_sort\(begin, end, comp\);', 'STUB_do_parallel_quick_sort(begin, end);', 2, 2, name='callee stub')
     t = rw.sub(t, r'(?s)parallel_for\(blocked_range<RandomAccessIterator>\(k \+ 1, end\),\s*quick_sort_pretest_body<RandomAccessIterator, Compare>\(comp, my_context\),\s*auto_partitioner\(\),\s*my_context\);',
                'STUB_parallel_for_pretest(k + 1, end);', 0, name='parallel_for -> stub that runs the body on an arbitrary chunk of the range')
